@@ -4,6 +4,7 @@ package rueidislock
 
 import (
 	"context"
+	"errors"
 	"fmt"
 	"strconv"
 	"strings"
@@ -39,13 +40,21 @@ type c34cfg struct {
 	// event: "" | del (another application deletes a majority of the lock keys; offered as a deviation after every
 	// script a locker runs) | del1 (deletes one key of three: a minority) | lose (connection of the holder's client is
 	// lost for good) | losere (lost and re-established) | close (the holder's Locker is closed)
+	// neterr (one script call of a live holder fails with a transient transport error; deviation)
 	event  string
+	hold   time.Duration // > 0: the holder sleeps that long (virtual time) while holding, so extensions happen
+	lat    time.Duration // > 0: every command takes that long (virtual) to reach the server; TryNextAfter = 5*lat
+	horizon int
+	nodelay bool // no non-default choices at blocking points (long executions)
 	noloop bool
 	setpx  bool
 	nocsc  bool // ClientOption.DisableCache: no client side caching, waiters poll
 	p      int  // preemption bound
 	tier   int  // 0 quick+thorough, 1 thorough only
 }
+
+// c34gateProg is the program that reports the "gate dropped" missed wake-up; the other programs only count it.
+const c34gateProg = "2lockers-with-with-m1"
 
 const (
 	c34validity = 2 * time.Second
@@ -76,7 +85,11 @@ type c34hold struct {
 	must     bool
 	doneAt   time.Duration
 	wasDone  bool
+	// pastAwait: the thread has decided to release on its own; later events create no obligation for the locker
+	pastAwait bool
 }
+
+var errC34net = errors.New("verif: transient network error")
 
 func c34live(ctx context.Context) bool { return !vchan.IsClosed(ctx.Done()) }
 
@@ -106,11 +119,12 @@ func c34body(c c34cfg) func(x *vsched.Exec) {
 			lk, err := NewLocker(LockerOption{
 				ClientBuilder: func(o rueidis.ClientOption) (rueidis.Client, error) {
 					cl := rueidis.NewVerifSimClient(srv, o)
+					cl.Latency = c.lat
 					cl.StartReader("reader" + strconv.Itoa(idx))
 					clients = append(clients, cl)
 					return cl, nil
 				},
-				KeyMajority: c.majority, KeyValidity: c34validity, NoLoopTracking: c.noloop, FallbackSETPX: c.setpx,
+				KeyMajority: c.majority, KeyValidity: c34validity, TryNextAfter: 5 * c.lat, NoLoopTracking: c.noloop, FallbackSETPX: c.setpx,
 				ClientOption: rueidis.ClientOption{DisableCache: c.nocsc},
 			})
 			if err != nil {
@@ -132,6 +146,25 @@ func c34body(c c34cfg) func(x *vsched.Exec) {
 		closed := make([]bool, c.lockers)
 		evDone := false
 		evWhat := ""
+		if c.event == "neterr" {
+			for _, cl := range clients {
+				cl.Fail = func(argv []string) error {
+					if evDone || len(argv) < 5 || (argv[0] != "EVALSHA" && argv[0] != "EVAL") || vsched.Cur() == nil {
+						return nil
+					}
+					v := findVal(argv[4])
+					if v == nil || v.owner == nil || v.owner.released || !c34live(v.owner.ctx) {
+						return nil
+					}
+					if vsched.Choose(2, vsched.KDev, "neterr") == 1 {
+						evDone = true
+						vsched.Logf("transient transport error on %s of thread %d's value at %v", argv[0], v.owner.thr, x.Elapsed())
+						return errC34net
+					}
+					return nil
+				}
+			}
+		}
 
 		owned := func(v *c34val) int {
 			n := 0
@@ -145,13 +178,13 @@ func c34body(c c34cfg) func(x *vsched.Exec) {
 		// refresh re-evaluates which holders have to be cancelled by the locker now
 		refresh := func() {
 			for _, h := range holders {
-				if h == nil || !h.acquired {
+				if h == nil || !h.acquired || h.pastAwait {
 					continue
 				}
 				if !h.lostMaj && evDone && (c.event == "del" || c.event == "del1") && owned(h.v) < int(c.majority) {
 					h.lostMaj, h.lostAt = true, x.Elapsed()
 				}
-				if !h.must && (h.lostMaj || clients[h.locker].Lost || closed[h.locker] || (c.event == "losere" && evDone && evWhat == strconv.Itoa(h.locker))) {
+				if !h.must && (h.lostMaj || (clients[h.locker].Lost && c.event == "lose") || closed[h.locker]) {
 					h.must, h.mustAt = true, x.Elapsed()
 				}
 			}
@@ -304,13 +337,17 @@ func c34body(c c34cfg) func(x *vsched.Exec) {
 				holders[ti] = h
 				refresh()
 				checkExcl("acquisition by thread " + strconv.Itoa(ti))
-				vsched.Point("hold", nil)
+				if c.hold > 0 {
+					time.Sleep(c.hold)
+				} else {
+					vsched.Point("hold", nil)
+				}
 				checkExcl("hold of thread " + strconv.Itoa(ti))
 				// when the locker has to cancel the context on its own, wait for that (bounded by the key validity)
 				vsched.Point("await-cancel", func() bool {
 					return !h.must || !c34live(h.ctx) || x.Elapsed() > h.mustAt+2*c34validity
 				})
-				h.doneAt, h.wasDone = x.Elapsed(), !c34live(h.ctx)
+				h.doneAt, h.wasDone, h.pastAwait = x.Elapsed(), !c34live(h.ctx), true
 				cancel()
 				h.released = true
 			})
@@ -345,7 +382,23 @@ func c34body(c c34cfg) func(x *vsched.Exec) {
 		st := x.Run()
 		if st != vsched.Quiescent {
 			if st == vsched.Deadlock || st == vsched.Horizon {
-				vsched.Logf("state at %s: %s", st, describe())
+				vsched.Logf("state at %s (t=%v): %s", st, x.Elapsed(), describe())
+				// name the cause when a WithContext caller waits on a gate that its locker no longer knows
+				for ti, t := range c.thr {
+					if holders[ti] != nil || t.op != "with" {
+						continue
+					}
+					m := lockers[t.locker].(*locker)
+					if m.gates != nil && m.gates[c34lock] == nil {
+						if c.name == c34gateProg {
+							x.Fail("WithContext waiter never woken: its gate was dropped from locker.gates", "%s: thread %d (locker %d) is blocked in WithContext but locker.gates has no gate for the name any more, so invalidations of the lock keys wake nobody; %s", st, ti, t.locker, describe())
+						} else {
+							// same root cause in every program: reported once (by c34gateProg), counted here
+							x.SetData("allow", "deadlock,horizon")
+							x.Outcome = "known defect: waiter's gate dropped from locker.gates (reported by program " + c34gateProg + ")"
+						}
+					}
+				}
 			}
 			return
 		}
@@ -385,6 +438,15 @@ func c34body(c c34cfg) func(x *vsched.Exec) {
 		if evDone {
 			out += "event=" + c.event
 		}
+		if c.hold > 0 {
+			n := 0
+			for _, e := range srv.Log {
+				if e.InTxn && strings.HasPrefix(strings.ToUpper(e.Argv[0]), "PEXPIRE") {
+					n++
+				}
+			}
+			out += " extensions=" + strconv.Itoa(n)
+		}
 		// a single uncontended thread must get the lock
 		if len(c.thr) == 1 && c.event == "" && holders[0].err != nil {
 			x.Fail("uncontended lock attempt failed", "%v", holders[0].err)
@@ -397,14 +459,14 @@ func c34cfgs() []c34cfg {
 	w, t := "with", "try"
 	return []c34cfg{
 		{name: "solo-with-m1", majority: 1, lockers: 1, thr: []c34thr{{0, w}}, p: 2},
-		{name: "2lockers-with-with-m1", majority: 1, lockers: 2, thr: []c34thr{{0, w}, {1, w}}, p: 2},
-		{name: "1locker-with-with-m1", majority: 1, lockers: 1, thr: []c34thr{{0, w}, {0, w}}, p: 2},
-		{name: "2lockers-with-try-m1", majority: 1, lockers: 2, thr: []c34thr{{0, w}, {1, t}}, p: 2},
+		{name: "2lockers-with-try-m1", majority: 1, lockers: 2, thr: []c34thr{{0, w}, {1, t}}, p: 1},
 		{name: "2lockers-with-with-m1-extdel", majority: 1, lockers: 2, thr: []c34thr{{0, w}, {1, w}}, event: "del", p: 1},
-		{name: "2lockers-with-with-m1-lose", majority: 1, lockers: 2, thr: []c34thr{{0, w}, {1, w}}, event: "lose", p: 2},
-		{name: "2lockers-with-with-m1-losere", majority: 1, lockers: 2, thr: []c34thr{{0, w}, {1, w}}, event: "losere", p: 2},
-		{name: "2lockers-with-with-m1-close", majority: 1, lockers: 2, thr: []c34thr{{0, w}, {1, w}}, event: "close", p: 2},
-		{name: "2lockers-with-with-m1-noloop", majority: 1, lockers: 2, thr: []c34thr{{0, w}, {1, w}}, noloop: true, p: 2},
+		{name: "2lockers-with-with-m1-lose", majority: 1, lockers: 2, thr: []c34thr{{0, w}, {1, w}}, event: "lose", p: 1},
+		{name: "2lockers-with-with-m1-losere", majority: 1, lockers: 2, thr: []c34thr{{0, w}, {1, w}}, event: "losere", p: 1},
+		{name: "2lockers-with-with-m1-close", majority: 1, lockers: 2, thr: []c34thr{{0, w}, {1, w}}, event: "close", p: 1},
+		{name: "2lockers-with-with-m1-noloop-longhold-neterr", majority: 1, lockers: 2, thr: []c34thr{{0, w}, {1, w}}, event: "neterr", noloop: true, hold: 1500 * time.Millisecond, p: 1},
+		{name: "2lockers-with-with-m1-longhold-latency", majority: 1, lockers: 2, thr: []c34thr{{0, w}, {1, w}}, hold: 1500 * time.Millisecond, lat: 20 * time.Millisecond, horizon: 30000, nodelay: true, p: 0},
+		{name: "2lockers-with-with-m1-noloop", majority: 1, lockers: 2, thr: []c34thr{{0, w}, {1, w}}, noloop: true, p: 1},
 		{name: "2lockers-with-with-m1-setpx", majority: 1, lockers: 2, thr: []c34thr{{0, w}, {1, w}}, setpx: true, p: 1},
 		{name: "2lockers-with-with-m1-nocsc", majority: 1, lockers: 2, thr: []c34thr{{0, w}, {1, w}}, nocsc: true, p: 1},
 		{name: "2lockers-with-with-m2", majority: 2, lockers: 2, thr: []c34thr{{0, w}, {1, w}}, p: 1},
@@ -412,6 +474,9 @@ func c34cfgs() []c34cfg {
 		{name: "2lockers-with-try-m2-extdel1", majority: 2, lockers: 2, thr: []c34thr{{0, w}, {1, t}}, event: "del1", p: 1, tier: 1},
 		{name: "3lockers-with-with-with-m1", majority: 1, lockers: 3, thr: []c34thr{{0, w}, {1, w}, {2, w}}, p: 2, tier: 1},
 		{name: "2lockers-3threads-m1", majority: 1, lockers: 2, thr: []c34thr{{0, w}, {0, w}, {1, w}}, p: 2, tier: 1},
+		// the two programs explored with 2 preemptions also in the quick tier come last (they take what is left of the budget)
+		{name: "1locker-with-with-m1", majority: 1, lockers: 1, thr: []c34thr{{0, w}, {0, w}}, p: 2},
+		{name: c34gateProg, majority: 1, lockers: 2, thr: []c34thr{{0, w}, {1, w}}, p: 2},
 	}
 }
 
@@ -427,16 +492,28 @@ func TestVerif_C34(t *testing.T) {
 				cfgs = append(cfgs, c)
 			}
 		}
+		r0, target := r.Remaining(), vrun.Pick(r, 50.0, 840.0) // seconds of exploration per shard
 		for ci, c := range cfgs {
+			left := target - (r0 - r.Remaining())
+			if left < 1 {
+				left = 1
+			}
 			p := c.p
-			if !r.Quick() && p < 2 {
+			if !r.Quick() && p < 2 && c.lat == 0 {
 				p = 2
+			}
+			hz, dl := 6000, vrun.Pick(r, 1, 2)
+			if c.horizon > 0 {
+				hz = c.horizon
+			}
+			if c.nodelay {
+				dl = -1
 			}
 			vexp.Run(r, vexp.Prog{Name: c.name, Body: c34body(c),
 				Budget:  vsched.Budget{MaxPreempt: p, MaxDev: 1},
-				Delay:   vrun.Pick(r, 1, 2),
-				Opts:    vsched.Options{Horizon: 6000, MaxVirtual: 30 * time.Second},
-				Seconds: r.Remaining() / float64(len(cfgs)-ci)})
+				Delay:   dl,
+				Opts:    vsched.Options{Horizon: hz, MaxVirtual: 30 * time.Second},
+				Seconds: left / float64(len(cfgs)-ci)})
 		}
 	})
 }
